@@ -6,26 +6,11 @@ use crate::{
 use heck::*;
 use proc_macro2::{Ident, Span, TokenStream};
 use quote::quote;
-use std::{error::Error, fmt::Display};
-
-#[derive(Debug)]
-struct OperationNotFound {
-    operation_name: String,
-}
-
-impl Display for OperationNotFound {
-    fn fmt(&self, f: &mut std::fmt::Formatter<'_>) -> std::fmt::Result {
-        f.write_str("Could not find an operation named ")?;
-        f.write_str(&self.operation_name)?;
-        f.write_str(" in the query document.")
-    }
-}
-
-impl Error for OperationNotFound {}
 
 /// This struct contains the parameters necessary to generate code for a given operation.
 pub(crate) struct GeneratedModule<'a> {
     pub operation: &'a str,
+    pub operation_id: OperationId,
     pub query_string: &'a str,
     pub resolved_query: &'a crate::query::Query,
     pub schema: &'a crate::schema::Schema,
@@ -36,23 +21,13 @@ impl GeneratedModule<'_> {
     /// Generate the items for the variables and the response that will go inside the module.
     fn build_impls(&self) -> Result<TokenStream, BoxError> {
         Ok(crate::codegen::response_for_query(
-            self.root()?,
+            self.operation_id,
             self.options,
             BoundQuery {
                 query: self.resolved_query,
                 schema: self.schema,
             },
         )?)
-    }
-
-    fn root(&self) -> Result<OperationId, OperationNotFound> {
-        let op_name = self.options.normalization().operation(self.operation);
-        self.resolved_query
-            .select_operation(&op_name, *self.options.normalization())
-            .map(|op| op.0)
-            .ok_or_else(|| OperationNotFound {
-                operation_name: op_name.into(),
-            })
     }
 
     /// Generate the module and all the code inside.
